@@ -165,6 +165,13 @@ def check_queries(ctx, srcs, what: str, expect_index_error=None, pack_check=None
         reqs.append(("simp", ["0", a_enc]))
         keep.append((src, a_enc, got, enc(out) if out is not None else None))
     res = ctx.driver.batch(reqs)
+    # the checked model (explicit side conditions) must agree with the plain one: a guard that fires is a broken tie
+    res_ck = ctx.driver.batch([("simpCk", a) for _, a in reqs])
+    for (src, _, _, _), r0, r1 in zip(keep, res, res_ck):
+        if tuple(r0) != tuple(r1) and not (r1[0] == "err" and "comprehension" in r1[1]):
+            ctx.disagree("simpCk-side-conditions", {"src": src}, (r0[0], r0[1][:300]), (r1[0], r1[1][:300]))
+        elif tuple(r0) != tuple(r1):
+            ctx.dist["simpCk-comprehension-refused"] += 1
     pairs = []
     for (src, a_enc, got, out_enc), (st, payload) in zip(keep, res):
         if st == "ok":
